@@ -297,6 +297,39 @@ def rule_b(chk, prog):
                 if st.inplace and any(p.startswith("STATE.thini[") for p in st.paths):
                     chk.violation("C08.b", f"{fi.module}:{fi.qualname}", st.text, "in-place write to the configured initial water content",
                                   loc=fi.loc(st.node))
+    # ... nor bound to the same local array as the live content (a fresh local has no access path: compare the reaching definitions)
+    from ..rdef import flow_of as _flow_of, ENTRY as _ENTRY
+
+    def origins(fi, flow, v, nid, depth=0):
+        if isinstance(v, ast.Name) and nid is not None and depth < 8:
+            out = set()
+            for d in flow.defs_reaching(v.id, nid):
+                a = flow.cfg.nodes[d].ast if d != _ENTRY else None
+                if isinstance(a, ast.Assign) and isinstance(a.value, ast.Name):
+                    out |= origins(fi, flow, a.value, d, depth + 1)
+                else:
+                    out.add((v.id if d == _ENTRY else "", d))
+            return out
+        return set()
+    for name, roles in (("init", init_roles(prog)), ("step", step_roles(prog))):
+        for key in sorted(roles.reached):
+            fi = prog.funcs[key]
+            sts = [st for st in stores(prog, fi, roles) if st.kind == "attr" and st.field in ("th", "thini")
+                   and any(p in ("STATE.th", "STATE.thini") for p in st.paths) and getattr(st.node, "value", None) is not None]
+            snap = [st for st in sts if st.field == "thini"]
+            live = [st for st in sts if st.field == "th"]
+            if not snap or not live:
+                continue
+            flow = _flow_of(fi)
+            for a in snap:
+                oa = origins(fi, flow, a.node.value, flow.stmt_node.get(id(a.node)))
+                for b in live:
+                    ob = origins(fi, flow, b.node.value, flow.stmt_node.get(id(b.node)))
+                    n += 1
+                    if oa & ob:
+                        chk.violation("C08.b", f"{fi.module}:{fi.qualname}", a.text,
+                                      f"the configured initial water content is bound to the same local array as the live water content (`{b.text}`): "
+                                      "in-place updates of th rewrite the content later seasons are reset to", loc=fi.loc(a.node))
     # The snapshot `thini` holds the water content *as requested*; what the water table of the day does to it (adjusted field capacity where
     # field capacity was requested, saturation below a table inside the profile) is applied after the snapshot by one helper, and the season
     # reset applies the same helper, with the depth of the season's first day, to the content it restores (F42: a snapshot taken after the
